@@ -112,7 +112,8 @@ def projection(e):
   P['columns'] = [dict(id=r, parent=int(v['parentId'] or 0), kind=col_kind(v['colId']), colId=v['colId'],
                        display=int(v['displayCol'] or 0), visible=int(v['visibleCol'] or 0),
                        summarySource=int(v['summarySourceCol'] or 0), rules=reflist(v['rules']),
-                       pos=v['parentPos'], formula=v['formula'], type=v['type'])
+                       pos=v['parentPos'], formula=v['formula'], type=v['type'], isFormula=bool(v['isFormula']),
+                       reverse=int(v['reverseCol'] or 0))
                   for r, v in rows_of(e, '_grist_Tables_column')]
   P['views'] = [r for r, v in rows_of(e, '_grist_Views')]
   P['sections'] = [dict(id=r, table=int(v['tableRef'] or 0), view=int(v['parentId'] or 0), rules=reflist(v['rules']),
@@ -530,9 +531,9 @@ class RG(object):
 def coq_rg(d):
   z, zl = core.zlit, core.zlist
   remap = core.coq_list(['(%s, %s)' % (z(a), z(b)) for a, b in d['remap']])
-  return '(mkRG %s %s %s %s %s %s %s %s %s %s)' % (
+  return '(mkRG %s %s %s %s %s %s %s %s %s %s %s)' % (
     z(d['sec']), z(d['target']), z(d['name']), z(d['src']), zl(d['gb']), zl(d['gbkinds']), zl(d['fkinds']),
-    zl(d['added']), remap, zl(d['new']))
+    zl(d['dcopies']), zl(d['added']), remap, zl(d['new']))
 
 
 def regroup_of(g, names):
@@ -547,10 +548,12 @@ def regroup_of(g, names):
   pre_t = set(t['id'] for t in pre['tables'])
   pre_c = set(c['id'] for c in pre['columns'])
   newcols = [c for c in post['columns'] if c['id'] not in pre_c]
-  if any(c['parent'] != target or c['kind'] in (K_DISPLAY, K_RULE, K_ROWRULE) for c in newcols):
+  if any(c['parent'] != target or c['kind'] in (K_RULE, K_ROWRULE) for c in newcols):
     return None
-  d = dict(sec=sec, src=g['src'], gb=list(g['gb']), name=0, gbkinds=[], fkinds=[], added=[])
+  d = dict(sec=sec, src=g['src'], gb=list(g['gb']), name=0, gbkinds=[], fkinds=[], added=[], dcopies=[])
   if target in pre_t:
+    if any(c['kind'] == K_DISPLAY for c in newcols):
+      return None
     d['target'] = target
     d['added'] = [c['kind'] for c in newcols]
   else:
@@ -562,8 +565,10 @@ def regroup_of(g, names):
       return None          # a column added after the table was created (name collision in _get_or_add_columns)
     d['target'] = 0
     d['name'] = names(tr[0]['name'])
+    # display helper columns copied for the group-by columns come after the table's own columns
     d['gbkinds'] = [c['kind'] for c in newcols[:len(g['gb'])]]
-    d['fkinds'] = [c['kind'] for c in newcols[len(g['gb']):]]
+    d['dcopies'] = [c['display'] for c in newcols[:len(g['gb'])]]
+    d['fkinds'] = [c['kind'] for c in newcols[len(g['gb']):] if c['id'] not in d['dcopies']]
   pf = {f['id']: f for f in pre['fields'] if f['section'] == sec}
   qf = {f['id']: f for f in post['fields'] if f['section'] == sec}
   # every surviving field of the section with the column it shows afterwards (the others were deleted)
@@ -582,6 +587,8 @@ def coq_op(o):
     if isinstance(a, RG):
       return coq_rg(a.d)
     if isinstance(a, (list, tuple)):
+      if o[0] == 'OReident':
+        return core.coq_list(['(%s, %s)' % (core.zlit(x), core.zlit(y)) for x, y in a])
       if a and isinstance(a[0], RG):
         return core.coq_list([coq_rg(x.d) for x in a])
       if o[0] == 'ORemoveColumnsG' and a is o[2]:
@@ -715,6 +722,19 @@ def translate(a, P, Q, names, rgs=()):
       return UNMODELLED
     tid = next_id([t['id'] for t in P['tables']])
     new = [t for t in Q['tables'] if t['id'] == tid and t['summarySource'] == tref]
+    if not new and not any(t['id'] == tid for t in Q['tables']):
+      # an existing summary table is used
+      sid = next_id([s['id'] for s in P['sections']])
+      ns = [s for s in Q['sections'] if s['id'] == sid]
+      if len(ns) != 1:
+        return UNMODELLED
+      target = ns[0]['table']
+      pc = set(c['id'] for c in P['columns'])
+      added = [c for c in Q['columns'] if c['id'] not in pc]
+      if any(c['parent'] != target or c['kind'] in (K_DISPLAY, K_RULE, K_ROWRULE, K_GROUP) for c in added):
+        return UNMODELLED
+      return ('OCreateSummaryExisting', tref, vref, list(gb), target, [c['kind'] for c in added],
+              [f['col'] for f in Q['fields'] if f['section'] == sid])
     if len(new) != 1:
       return UNMODELLED
     newcols = [c for c in Q['columns'] if c['parent'] == tid]
@@ -726,10 +746,12 @@ def translate(a, P, Q, names, rgs=()):
     old_s = set(s['id'] for s in P['sections'])
     page = [s['id'] for s in Q['sections'] if s['table'] == tid and s['id'] not in old_s]
     shown = [f['col'] for f in Q['fields'] if page and f['section'] == max(page)]
-    if shown != [c['id'] for c in newcols if c['kind'] != K_GROUP]:
+    dcop = [c['display'] for c in newcols[:len(gb)]]
+    if shown != [c['id'] for c in newcols if c['kind'] not in (K_GROUP, K_DISPLAY)]:
       return UNMODELLED
     return ('OCreateSummary', tref, vref, list(gb), names(new[0]['name']),
-            [c['kind'] for c in newcols[:len(gb)]], [c['kind'] for c in newcols[len(gb):]])
+            [c['kind'] for c in newcols[:len(gb)]],
+            [c['kind'] for c in newcols[len(gb):] if c['id'] not in dcop], dcop)
   if name in ('AddTable', 'AddEmptyTable', 'AddRawTable'):
     tid = next_id([t['id'] for t in P['tables']])
     new = [t for t in Q['tables'] if t['id'] == tid]
@@ -783,8 +805,13 @@ def translate(a, P, Q, names, rgs=()):
     return ('OAddView', T[a[1]]['id'] if a[1] in T else 0, a[2] == 'raw_data')
   if name == 'CreateViewSection':
     tref, vref, typ, gb = a[1], a[2], a[3], a[4]
-    if gb is not None or typ in ('chart', 'form') or not isinstance(tref, int) or not isinstance(vref, int):
+    if gb is not None or not isinstance(tref, int) or not isinstance(vref, int):
       return UNMODELLED
+    if typ in ('chart', 'form'):
+      if tref == 0:
+        return UNMODELLED
+      sid = next_id([s['id'] for s in P['sections']])
+      return ('OCreateSectionShown', tref, vref, [f['col'] for f in Q['fields'] if f['section'] == sid])
     newname = 0
     if tref == 0:
       tid = next_id([t['id'] for t in P['tables']])
@@ -809,6 +836,16 @@ def translate(a, P, Q, names, rgs=()):
       col = cs[0]['id']
     same = [c['id'] for c in P['columns'] if c['parent'] == tid and c['formula'] == formula and
             c['colId'].startswith('gristHelper_Display')]
+    cc = [c for c in P['columns'] if c['id'] == col]
+    if cc and not fld:
+      tb = [t for t in P['tables'] if t['id'] == cc[0]['parent']]
+      if tb and tb[0]['summarySource'] and not cc[0]['summarySource']:
+        # a formula column of a summary table: the update is copied to the same-named formula columns of the
+        # other summary tables of the same source table
+        sibs = [t['id'] for t in P['tables'] if t['summarySource'] == tb[0]['summarySource'] and t['id'] != tb[0]['id']]
+        sisters = [] if cc[0]['colId'].startswith('gristHelper') or not cc[0]['isFormula'] else \
+            [c['id'] for c in P['columns'] if c['parent'] in sibs and c['colId'] == cc[0]['colId'] and c['isFormula']]
+        return ('OSetDisplaySisters', tid, col, bool(formula), same[0] if same else 0, sisters)
     return ('OSetDisplay', tid, fld, col, bool(formula), same[0] if same else 0)
   if name == 'AddEmptyRule':
     if a[1] not in T:
@@ -831,23 +868,49 @@ def translate(a, P, Q, names, rgs=()):
       return ('OSetVisible', a[2], a[3]['visibleCol'])
     if a[1] == '_grist_Pages' and keys <= {'indentation', 'pagePos'}:
       return NOMETA
+    if a[1] == '_grist_Views_section' and keys and keys <= {'linkSrcSectionRef', 'linkSrcColRef', 'linkTargetColRef',
+                                                            'description', 'sortColRefs', 'filterSpec', 'chartType'}:
+      return NOMETA          # cells the model does not carry (the oracle checks the link references)
     return UNMODELLED
   if name == 'AddRecord' and a[1] == '_grist_Views_section_field':
     if set(a[3]) == {'parentId', 'colRef'} and a[2] is None:
       return ('OAddField', a[3]['parentId'], a[3]['colRef'])
     return UNMODELLED
-  if name == 'RenameTable':
-    if a[1] not in T:
+  if name in ('RenameTable', 'RenameColumn'):
+    if a[1] not in T or len(P['tables']) != len(Q['tables']) or len(P['columns']) != len(Q['columns']):
       return UNMODELLED
-    new = [t for t in Q['tables'] if t['id'] == T[a[1]]['id']]
-    return ('ORenameTable', T[a[1]]['id'], names(new[0]['name'])) if len(new) == 1 else UNMODELLED
+    qn = {t['id']: t['name'] for t in Q['tables']}
+    qc = {c['id']: c for c in Q['columns']}
+    tn = [(t['id'], names(qn[t['id']])) for t in P['tables'] if t['id'] in qn and qn[t['id']] != t['name']]
+    ck = [(c['id'], qc[c['id']]['kind']) for c in P['columns']
+          if c['id'] in qc and qc[c['id']]['colId'] != c['colId'] and qc[c['id']]['kind'] != c['kind']]
+    return ('OReident', ck, tn)
   if name in ('AddRecord', 'BulkAddRecord', 'UpdateRecord', 'BulkUpdateRecord', 'RemoveRecord', 'BulkRemoveRecord',
               'AddOrUpdateRecord', 'BulkAddOrUpdateRecord', 'ReplaceTableData') and not a[1].startswith('_grist_'):
     return NOMETA
   if name == 'Calculate':
     return NOMETA
-  if name == 'ModifyColumn' and set(a[3] or {}) <= {'formula'}:
-    return NOMETA
+  if name == 'ModifyColumn':
+    info = a[3] or {}
+    if a[1] not in T or not set(info) <= {'formula', 'isFormula', 'type', 'widgetOptions', 'description'}:
+      return UNMODELLED
+    cs = [c for c in P['columns'] if c['parent'] == T[a[1]]['id'] and c['colId'] == a[2]]
+    if len(cs) != 1:
+      return UNMODELLED
+    c = cs[0]
+    guessed = c['isFormula'] and info.get('isFormula') is False and c['type'] == 'Any'
+    if 'type' not in info and not guessed:
+      return NOMETA
+    qc = [x for x in Q['columns'] if x['id'] == c['id']]
+    if len(qc) != 1:
+      return UNMODELLED
+    old, new = c['type'], qc[0]['type']
+    rt = lambda t: t.split(':', 1)[1] if t.split(':')[0] in ('Ref', 'RefList') and ':' in t else None
+    compatible = bool(rt(new)) and rt(new) == rt(old)
+    qtypes = {x['id']: x['type'] for x in Q['columns']}
+    copies = [x for x in P['columns'] if x['summarySource'] == c['id']]
+    gchanged = any(qtypes.get(x['id']) != x['type'] for x in copies)
+    return ('OModifyType', c['id'], ref_target(Q, new), compatible, new != old, gchanged)
   return UNMODELLED
 
 
@@ -954,7 +1017,7 @@ def run_multi(ctx, name, items, checks, shard=60, timeout=300):
         terms.append('(%s, o%d, %s, %s, %s)' % (ns[0], j, ns[1], ns[2], verdict))
       f.write('Definition the_cases := [\n  ' + ';\n  '.join(terms) + '\n].\n')
       for key, chk in checks:
-        f.write('Goal True. idtac "@@RESULT %s". exact I. Qed.\n' % key)
+        f.write('Goal True. idtac "@@RESULT %s;". exact I. Qed.\n' % key)
         f.write('Eval vm_compute in (failing (%s) the_cases).\n' % chk)
       f.write('Goal True. idtac "@@END". exact I. Qed.\n')
     paths.append((k, path))
@@ -977,7 +1040,7 @@ def run_multi(ctx, name, items, checks, shard=60, timeout=300):
         q.kill()
       raise core.TieBroken('cases file %s does not evaluate: %s' % (os.path.basename(path), out[-1500:]))
     for key, _ in checks:
-      seg = out.split('@@RESULT %s' % key, 1)[1].split('@@', 1)[0]
+      seg = out.split('@@RESULT %s;' % key, 1)[1].split('@@', 1)[0]
       mm = re.search(r'=\s*\[(.*?)\]\s*:\s*list nat', seg, re.S)
       if not mm:
         raise core.TieBroken('cannot parse result %s of %s: %s' % (key, os.path.basename(path), seg[-400:]))
@@ -1035,6 +1098,8 @@ TARGETED = [
   BASE_DOC + [[['AddEmptyRule', 'T', 0, 0]], [['UpdateRecord', '_grist_Views_section', 2, {'rules': None}]]],
   BASE_DOC + [[['UpdateSummaryViewSection', 5, [2]], ['UpdateSummaryViewSection', 5, [3]]]],
   BASE_DOC + [[['DetachSummaryViewSection', 5]]],
+  BASE_DOC + [[['DetachSummaryViewSection', 4]]],
+  BASE_DOC + [[['RemoveViewSection', 5], ['DetachSummaryViewSection', 4]]],
   # one history per back-reference cell: the record it points at is removed directly
   BASE_DOC + [[['SetDisplayFormula', 'T', 1, None, '$B']], [['RemoveColumn', 'T', 'gristHelper_Display']]],
   BASE_DOC + [[['SetDisplayFormula', 'T', None, 2, '$B']], [['RemoveColumn', 'T', 'gristHelper_Display']]],
@@ -1133,6 +1198,10 @@ def regroup_defects(r):
     if any(t['raw'] == g['sec'] for t in g['pre']['tables']):
       direct = r['bundle'][g['action']][0] == 'UpdateSummaryViewSection'
       out.add('update-summary-raw-section' if direct else 'raw-section-regrouped')
+  for k, a in enumerate(r['bundle']):
+    if a[0] == 'DetachSummaryViewSection' and k < len(r['snaps']) and \
+       any(t['raw'] == a[1] for t in r['snaps'][k]['tables']):
+      out.add('detach-raw-section')
   return out
 
 
@@ -1141,7 +1210,7 @@ def classify(r, issues):
   defects = regroup_defects(r)
   if 'duplicate-field-regrouped' in defects:
     return 'duplicate-field-regrouped'
-  for k in ('raw-section-regrouped', 'update-summary-raw-section'):
+  for k in ('raw-section-regrouped', 'update-summary-raw-section', 'detach-raw-section'):
     if k in defects and all(i[0] in ('field.colRef', 'field.colRef-other-table', 'table.raw-of-other-table',
                                      'table.rawViewSectionRef') for i in issues):
       return k
@@ -1223,7 +1292,8 @@ def correspond(ctx):
                  'history %s ops %s' % (json.dumps(recs[i]['history'], default=repr), [repr(o) for o in recs[i]['ops']]))
   # the repaired defects must not occur in any successful bundle (each would also make the model reject or differ)
   for i, r in enumerate(recs):
-    for d in sorted(regroup_defects(r) - {'duplicate-field-regrouped'}):   # duplicates are fine when all move
+    # duplicates are fine when all move; detaching a raw section is reported by the oracle (known finding)
+    for d in sorted(regroup_defects(r) - {'duplicate-field-regrouped', 'detach-raw-section'}):
       ctx.broken('monitor:update_summary_section ran in a way the repaired code excludes (%s)' % d,
                  'history %s' % json.dumps(r['history'], default=repr))
   ctx.extra['bundles'] = len(recs)
